@@ -37,7 +37,10 @@ From Batchie Require Import Model.Orchestrate Proofs.C19Base Proofs.C19Canon Pro
   Generated.SrcOrchMain Proofs.C19SourceMain Generated.SrcOrchCmd Proofs.C19SourceCmd
   Generated.SrcOrchInit Proofs.C19Source_ValidateInitial
   Generated.SrcOrchArgs Proofs.C19Source_GetArgs Proofs.C19Source_GetArgsMain
-  Generated.SrcOrchPaths Proofs.C19Source_Paths Generated.SrcOrchCmdClosed Proofs.C19Source_CmdClosed.
+  Generated.SrcOrchPaths Proofs.C19Source_Paths Generated.SrcOrchCmdClosed Proofs.C19Source_CmdClosed
+  Proofs.C19Progress Proofs.C19Torn Proofs.C19Async
+  Model.NfFiles Generated.SrcNfOutputs Proofs.C19Nf.
+From Batchie Require Model.Cli Generated.SrcParser_select_next_plate.
 Import ListNotations.
 
 (* For EVERY crash schedule (any number of crashes, at any event of any call), batch size, number of
@@ -824,3 +827,182 @@ Example C19_source_paths_example :
   src_run_initial_plate_closed [] (S_scripts :: script_in []) [] (0, 0)%Z (Some SInput) tt [] = SRaised [] 8%Z.
 Proof. split; [repeat constructor; discriminate | vm_compute; repeat split; reflexivity]. Qed.
 End PathExamples.
+
+(* ---- progress of the retrospective mode after a crash ("rerunning it ... continues the simulation") ---- *)
+
+(* From ANY tree a crash schedule leads to, with c completed steps: after m further calls that are not interrupted (any
+   marker-last orders) at least min n (c + m - 1) steps are complete - every call completes the next step, except that the
+   first may be spent on naming the incomplete directory, which the operator removes - and the completed steps are still
+   exactly the first ones of the never-interrupted run. *)
+Theorem C19_retro_progress : forall (bs n : nat) fixed,
+  (1 <= bs)%nat -> (1 <= n)%nat -> fixed = true \/ bs = 1%nat ->
+  forall sched0 es, Forall (fun e => entry_ok e = true) sched0 ->
+  Forall (fun e => entry_ok e = true /\ (4 + length (e_order e) <= e_k e)%nat) es ->
+  let f := fst (script_run Retro fixed (Z.of_nat bs) n [] sched0) in
+  let f' := fst (script_run Retro fixed (Z.of_nat bs) n f es) in
+  completed f' = ideal Retro bs n (length (completed f')) /\
+  (Nat.min n (length (completed f) + length es - 1) <= length (completed f') <= n)%nat.
+Proof. exact retro_progress. Qed.
+Print Assumptions C19_retro_progress.
+
+(* ... so n - c + 1 uninterrupted calls after ANY crash history end in the never-interrupted run *)
+Theorem C19_retro_rerun_finishes : forall (bs n : nat) fixed,
+  (1 <= bs)%nat -> (1 <= n)%nat -> fixed = true \/ bs = 1%nat ->
+  forall sched0 es, Forall (fun e => entry_ok e = true) sched0 ->
+  Forall (fun e => entry_ok e = true /\ (4 + length (e_order e) <= e_k e)%nat) es ->
+  let f := fst (script_run Retro fixed (Z.of_nat bs) n [] sched0) in
+  (n + 1 <= length (completed f) + length es)%nat ->
+  completed (fst (script_run Retro fixed (Z.of_nat bs) n f es)) = crash_free Retro bs n.
+Proof. exact retro_rerun_finishes. Qed.
+Print Assumptions C19_retro_rerun_finishes.
+
+(* the hypotheses are satisfiable after a crash inside the pipeline run of step (0,1): 1 completed, the first rerun names
+   iter_0/plate_1, four more finish *)
+Example C19_retro_progress_after_crash :
+  let f := fst (script_run Retro true 2 4 [] [full; mke 6 all_kinds]) in
+  length (completed f) = 1%nat /\
+  map (fun g => match g with GNamed _ _ => 1 | GLaunch _ _ _ true => 2 | _ => 0 end)
+      (snd (script_run Retro true 2 4 f [full; full; full; full])) = [1; 2; 2; 2].
+Proof. vm_compute. split; reflexivity. Qed.
+
+(* ---- torn completion markers: a published file does NOT appear atomically (Model/Orchestrate.v, last section) ----
+   script_run_t tfix ...  the run on trees (tree, set of steps whose screen_metadata.json exists but cannot be read) along
+   entries that may say "the interruption comes while the last file is being published"; tfix = false is the script as it is
+   (json.load raises out of examine), tfix = true the repair (an unreadable marker counts as no marker). *)
+
+(* conservative extension: no torn marker and no tearing entry = the model above *)
+Theorem C19_torn_model_conservative : forall tfix md fixed bs n sched f,
+  script_run_t tfix md fixed bs n (f, []) (map whole sched) =
+  let r := script_run md fixed bs n f sched in ((fst r, []), snd r).
+Proof. exact script_run_t_conservative. Qed.
+Print Assumptions C19_torn_model_conservative.
+
+(* on a well-formed torn tree the script today raises (JSONDecodeError, names nothing) EXACTLY when the first problem examine
+   meets is a directory with a torn marker - where a missing marker would have been named "invalid structure" *)
+Theorem C19_torn_examine_raises_iff : forall fixed bs tf w, torn_wf tf ->
+  (examine_t false fixed bs tf = TRaised w <->
+   w = 70%Z /\ exists s, examine fixed bs (fst tf) = XNamed 1 s /\ is_torn (snd tf) s = true).
+Proof. exact examine_t_raises_iff. Qed.
+Print Assumptions C19_torn_examine_raises_iff.
+
+(* a raising examine strands the script: every further call, whatever its entry, raises again, touches nothing, names nothing *)
+Theorem C19_torn_raise_is_permanent : forall tfix md fixed bs n tf w,
+  examine_t tfix fixed bs tf = TRaised w ->
+  forall sched, script_run_t tfix md fixed bs n tf sched = (tf, repeat (GFail w) (length sched)).
+Proof. exact torn_stuck. Qed.
+Print Assumptions C19_torn_raise_is_permanent.
+
+(* REFUTED: "interrupted during a pipeline run with partially published outputs, rerunning continues the simulation".
+   Retrospective, batch size 1, 3 plates, marker last in every order, the script as /repo has it: the run of step (1,0) is
+   interrupted while its last file, the marker, is being published.  From then on EVERY rerun (any number k) fails with the
+   same exception, no directory is ever named, step (1,0) is never completed. *)
+Theorem C19_resume_refuted_torn_marker :
+  exists sched,
+    Forall (fun te => entry_ok (te_e te) = true) sched /\
+    forall k,
+      let r := script_run_t false Retro true 1 3 ([], []) (sched ++ repeat (whole full) k) in
+      snd (fst r) = [(1, 0)%Z] /\
+      completed (fst (fst r)) = ideal Retro 1 3 1 /\
+      skipn 2 (snd r) = repeat (GFail 70) k /\
+      (forall w s, ~ In (GNamed w s) (snd r)).
+Proof. exists witness_torn. exact torn_marker_strands. Qed.
+Print Assumptions C19_resume_refuted_torn_marker.
+
+(* the repair: with `except ValueError: return None` around json.load an unreadable marker IS a missing marker - examine
+   answers as the model's examine on the tree component (so the torn directory is named and removed, and the theorems above
+   apply to what follows), and never raises *)
+Theorem C19_torn_repaired_is_missing_marker : forall fixed bs tf, torn_wf tf ->
+  examine_t true fixed bs tf = tres_of_xres (examine fixed bs (fst tf)).
+Proof. exact examine_t_repaired_is_missing. Qed.
+Print Assumptions C19_torn_repaired_is_missing_marker.
+
+Theorem C19_torn_repaired_never_raises : forall fixed bs tf w, examine_t true fixed bs tf <> TRaised w.
+Proof. exact examine_t_repaired_never_raises. Qed.
+Print Assumptions C19_torn_repaired_never_raises.
+
+(* the witness under the repair: the torn directory is named, the run completes; and the prospective variant of the witness *)
+Example C19_torn_witness_repaired :
+  let r := script_run_t true Retro true 1 3 ([], []) (witness_torn ++ [full_t; full_t; full_t; full_t]) in
+  snd (fst r) = [] /\ completed (fst (fst r)) = crash_free Retro 1 3 /\ nth 2 (snd r) GDone = GNamed 1 (1, 0)%Z.
+Proof. exact torn_witness_repaired. Qed.
+Example C19_torn_witness_prospective :
+  let r := script_run_t false Prosp true 2 3 ([], []) ([full_t; mkte (mke 7 canon_order) true] ++ repeat full_t 3) in
+  snd (fst r) = [(0, 1)%Z] /\ skipn 2 (snd r) = repeat (GFail 70) 3.
+Proof. exact torn_witness_prospective. Qed.
+
+(* ---- the marker published before advanced_screen.h5 (asynchronous publishing; outside `entry_ok`) ---- *)
+
+(* REFUTED without marker_last in RETROSPECTIVE mode too: every file kind is published, the order puts the marker before
+   advanced_screen.h5, the run of (0,0) is interrupted between the two.  (0,0) counts as complete; get_screen_from_job_output
+   falls back to training.screen.h5, so step (1,0) is started from the screen BEFORE plate 0 was revealed - not the output of
+   its predecessor - and records the selection of plate 0 a second time. *)
+Theorem C19_resume_refuted_marker_before_advanced :
+  exists sched,
+    Forall (fun e => covers (e_order e) = true) sched /\
+    let r := script_run Retro true 1 3 [] sched in
+    nth 1 (snd r) GDone = GLaunch (1, 0)%Z (LFirst (SFile (0, 0)%Z KTraining) (SFile (0, 0)%Z KTraining))
+                                   [KThetas; KDist; KSelected; KAdvanced; KMeta] true /\
+    ideal_launch Retro 1 1 = LFirst (SFile (0, 0)%Z KAdvanced) (SFile (0, 0)%Z KTraining) /\
+    (exists d0 d1, get_plate (fst r) (0, 0)%Z = Some d0 /\ get_plate (fst r) (1, 0)%Z = Some d1 /\
+                   f_selected d0 = Some 0%Z /\ f_selected d1 = Some 0%Z /\ f_advanced d0 = None) /\
+    completed (fst r) <> ideal Retro 1 3 (length (completed (fst r))).
+Proof. exact resume_refuted_marker_before_advanced. Qed.
+Print Assumptions C19_resume_refuted_marker_before_advanced.
+
+(* the same inside a batch (batch size 2, plate 1): no screen is found at all, the call raises a TypeError that names nothing,
+   and however often the script is rerun no further step is ever completed *)
+Theorem C19_marker_before_advanced_strands :
+  Forall (fun e => covers (e_order e) = true) stuck_sched /\
+  nth 2 (snd (script_run Retro true 2 4 [] stuck_sched)) GDone = GFail 9 /\
+  forall m, map fst (completed (fst (script_run Retro true 2 4 [] (stuck_sched ++ repeat full m)))) = [(0, 0); (0, 1)]%Z.
+Proof. exact marker_before_advanced_strands. Qed.
+Print Assumptions C19_marker_before_advanced_strands.
+
+(* ---- the nextflow side, read from /repo/nextflow on every run (harness/nf_reader.py -> Generated/SrcNfOutputs.v) ----
+   nf_outputs      (process, pattern of its output: block under ${prefix}/, file name its script block writes)
+   script_globs    what the translated helpers glob for, taken from the primitives of their configurations
+   kind_pattern / kind_process / kind_levels (Model/NfFiles.v): the file name, process and depth the model's kinds denote *)
+
+(* every file kind of the model is published by the process the model attributes it to: the module's output pattern matches the
+   name its script block writes, and the pattern the script globs for matches that name too *)
+Theorem C19_nf_outputs_are_what_the_script_globs : forall k,
+  exists pat written, In (kind_process k, pat, written) nf_outputs /\
+                      NfFiles.glob_match pat written = true /\ NfFiles.glob_match (kind_pattern k) written = true.
+Proof. exact nf_outputs_are_what_the_script_globs. Qed.
+Print Assumptions C19_nf_outputs_are_what_the_script_globs.
+
+(* a published name is matched by the glob of ONE kind only *)
+Theorem C19_nf_written_names_unambiguous : forall proc pat written k1 k2,
+  In (proc, pat, written) nf_outputs ->
+  NfFiles.glob_match (kind_pattern k1) written = true -> NfFiles.glob_match (kind_pattern k2) written = true -> k1 = k2.
+Proof. exact nf_written_names_unambiguous. Qed.
+Print Assumptions C19_nf_written_names_unambiguous.
+
+(* the globs of the translated helpers are exactly the model's patterns, at the model's directory depth, and every kind is globbed for *)
+Theorem C19_script_globs_are_kind_patterns :
+  (forall pat code lv, In (pat, code, lv) script_globs ->
+     exists k, kind_of_code code = Some k /\ pat = kind_pattern k /\ lv = kind_levels k) /\
+  (forall k, exists code, kind_of_code code = Some k /\ In (kind_pattern k, code, kind_levels k) script_globs).
+Proof. split; [exact script_globs_are_kind_patterns|exact script_globs_cover_every_kind]. Qed.
+Print Assumptions C19_script_globs_are_kind_patterns.
+
+(* every configuration that sets publishDir sets it to the --outdir the script passes; every module writes one level below it *)
+Theorem C19_nf_publish_dir_is_outdir :
+  nf_publish_dirs <> [] /\ Forall (fun c => snd c = publish_setting) nf_publish_dirs /\ nf_prefix = publish_prefix.
+Proof. exact nf_publish_dir_is_outdir. Qed.
+Print Assumptions C19_nf_publish_dir_is_outdir.
+
+(* how --excludes=a,b reaches the policy: split on the separator the script joins with; handed on as the tuple element the
+   sub-workflow picks for SELECT_NEXT_PLATE's `excludes` input; passed blank-separated after a flag that select_next_plate's own
+   parser (Generated/SrcParser_select_next_plate.v) declares with nargs='+' type=int, dest batch_plate_id *)
+Theorem C19_nf_excludes_chain :
+  nf_excludes_tokenize = excludes_sep /\
+  (exists pos, index_of nf_excludes_index nf_select_picks 0 = Some pos /\ nth_str pos nf_select_inputs = S_excludes) /\
+  nf_excludes_join = S_blank /\
+  match flag_option (Cli.str_of_string nf_excludes_flag) SrcParser_select_next_plate.src_parser_select_next_plate with
+  | Some o => Cli.o_type o = Some Cli.TInt /\ Cli.o_nargs o = Some Cli.NPlus /\ Cli.o_action o = Cli.ActStore /\
+              Cli.opt_dest o = Cli.str_of_string S_batch_plate_id
+  | None => False
+  end.
+Proof. exact nf_excludes_chain. Qed.
+Print Assumptions C19_nf_excludes_chain.
